@@ -154,6 +154,28 @@ type callResult struct {
 	elapsed time.Duration
 }
 
+// callEntryBounded runs one call on its own goroutine and gives up on it when this process has
+// burnt budget of CPU time since the call began (nothing else runs in a worker meanwhile): a call
+// that does not come back is reported at once, with its input, instead of stopping the worker until
+// the per-case watchdog fires. The abandoned goroutine keeps spinning until the worker exits.
+func callEntryBounded(which int, text []byte, plan simrt.ReadPlan, budget time.Duration) (cr callResult, hung bool) {
+	done := make(chan callResult, 1)
+	go func() { done <- callEntry(which, text, plan) }()
+	cpu0, t0 := simrt.ProcessCPU(), time.Now()
+	tick := time.NewTicker(20 * time.Millisecond)
+	defer tick.Stop()
+	for {
+		select {
+		case cr = <-done:
+			return cr, false
+		case <-tick.C:
+			if simrt.ProcessCPU()-cpu0 > budget || time.Since(t0) > 20*budget {
+				return callResult{name: entryNames[which], plan: plan}, true
+			}
+		}
+	}
+}
+
 var entryNames = []string{"spec.Parse", "ebnf/ast.Parse", "Parser.Parse", "Parser.ParseAndBuildAST", "Parser.ParseAndEvaluate", "spec.Parse+DFA+LALR"}
 
 func callEntry(which int, text []byte, plan simrt.ReadPlan) (cr callResult) {
@@ -645,13 +667,12 @@ func (e Engine) Run(t *simrt.Tape, c simrt.Case, x *simrt.Ctx) *simrt.Result {
 			}
 			sb.WriteString("\n")
 			text := []byte(sb.String())
-			if len(text) > 3900 {
-				// keep clear of the reader's buffer boundary: this workload is about table sizes
-				// (a multi-buffer text would mostly exercise the dependency's known double reload)
-				text = compactBelow(text, 3900)
-			}
-			cr := callEntry(0, text, simrt.FullPlan())
+			cr, hung := callEntryBounded(0, text, simrt.FullPlan(), 30*time.Second)
 			res.Evals++
+			if hung {
+				res.Violation = &simrt.Violation{Class: "hang:spec.Parse[many_symbols]", Message: fmt.Sprintf("spec.Parse did not return within 30 s of CPU time on a specification with %d rules and %d tokens (name style %d, %d bytes)", n, nTok, style, len(text)), Detail: map[string]any{"text": string(text)}}
+				return res
+			}
 			res.Key("many_symbols", style, n/40, outcomeClass(cr))
 			if cls, msg := judge(cr, len(text), B); cls != "" {
 				if id := knownFinding(x, cls); id != "" {
@@ -659,6 +680,51 @@ func (e Engine) Run(t *simrt.Tape, c simrt.Case, x *simrt.Ctx) *simrt.Result {
 					continue
 				}
 				res.Violation = &simrt.Violation{Class: cls + "[many_symbols]", Message: fmt.Sprintf("specification with %d rules and %d tokens (name style %d): %s", n, nTok, style, msg), Detail: map[string]any{"text_head": string(text[:min(len(text), 300)])}}
+				return res
+			}
+		}
+		// fill levels: many small name sets whose sizes sweep densely through the range in which hash
+		// tables of this size class are resized (a probe sequence that cannot find a free slot, a
+		// resize that is skipped or done twice shows only at particular fill levels and hash values)
+		nFill := 150
+		if x.Tier == "thorough" {
+			nFill = 600
+		}
+		for i := 0; i < nFill; i++ {
+			nR, nT := 20+t.Draw(110), t.Draw(110)
+			salt := t.Draw(1 << 20)
+			var sb strings.Builder
+			sb.WriteString("grammar fill;\n")
+			for k := 0; k < nT; k++ {
+				fmt.Fprintf(&sb, "T%x_%d=\"t%d_%x\";", salt&0xfff, k, k, salt>>8)
+			}
+			fmt.Fprintf(&sb, "\nstart=r%x_0;\n", salt&0xffff)
+			for k := 0; k < nR; k++ {
+				fmt.Fprintf(&sb, "r%x_%d=\"l%d_%x\"", salt&0xffff, k, k, salt&0xff)
+				if k+1 < nR {
+					fmt.Fprintf(&sb, " r%x_%d", salt&0xffff, k+1)
+				}
+				if nT > 0 {
+					fmt.Fprintf(&sb, "|T%x_%d", salt&0xfff, k%nT)
+				}
+				sb.WriteString(";")
+			}
+			sb.WriteString("\n")
+			text := []byte(sb.String())
+			cr, hung := callEntryBounded(0, text, simrt.FullPlan(), 30*time.Second)
+			res.Evals++
+			if hung {
+				res.Violation = &simrt.Violation{Class: "hang:spec.Parse[fill_level]", Message: fmt.Sprintf("spec.Parse did not return within 30 s of CPU time on a specification with %d rules and %d tokens (%d bytes)", nR, nT, len(text)), Detail: map[string]any{"text": string(text)}}
+				return res
+			}
+			res.Key("fill_level", nR/8, nT/8, outcomeClass(cr))
+			res.Count("fill_level_specifications", 1)
+			if cls, msg := judge(cr, len(text), B); cls != "" {
+				if id := knownFinding(x, cls); id != "" {
+					res.Known[id]++
+					continue
+				}
+				res.Violation = &simrt.Violation{Class: cls + "[fill_level]", Message: fmt.Sprintf("specification with %d rules and %d tokens: %s", nR, nT, msg), Detail: map[string]any{"text": string(text)}}
 				return res
 			}
 		}
